@@ -181,15 +181,18 @@ def gen_cfg(rng, role, st):
     return {"prefs": prefs, "disabled": dis, "skeys": skeys, "moduli": moduli, "strict": rng.random() < 0.75}
 
 
-def gen_peer(rng, st, adv):
-    """A peer KEXINIT: random subsets / orderings / unknown names / markers; `adv` = our own lists."""
+def gen_peer(rng, st, adv, benign=False):
+    """A peer KEXINIT: random subsets / orderings / unknown names / markers; `adv` = our own lists.
+    benign: no sabotaged category and every list overlaps ours (so that late categories are reached)."""
     lists = []
-    sabotage = rng.randrange(8) if rng.random() < 0.3 else None
+    sabotage = rng.randrange(8) if (rng.random() < 0.3 and not benign) else None
     for i, typ in enumerate(CAT8_TYPE):
         table = st["tables"][typ]
         if i == 1:
             table = table + [n + CERT for n in table[:3]]
         mode = rng.random()
+        if benign:
+            mode = 0.6
         if i == sabotage:
             l = rng.choice([[], [rng.choice(UNKNOWN)], rng.sample(UNKNOWN, 3),
                             [n for n in table if n not in adv[i]][:3]])
@@ -218,6 +221,66 @@ def gen_peer(rng, st, adv):
         l = [n for n in l if "," not in n]
         lists.append(l)
     return lists
+
+
+def ranked_differently(client_l, server_l, kex=False):
+    """>= 2 common algorithms and the two sides rank them differently: the client's first common
+    entry is not the server's first common entry (exactly when a swapped filter changes the result)."""
+    c = [n for n in client_l if n != "" and not (kex and is_marker(n))]
+    s = [n for n in server_l if n != "" and not (kex and is_marker(n))]
+    fc = next((n for n in c if n in s), None)
+    fs = next((n for n in s if n in c), None)
+    return fc is not None and fc != fs
+
+
+def gen_rankdiff_cfg(rng, role, st, i):
+    """A mostly benign local state with >= 2 enabled algorithms in the category under test."""
+    from paramiko import Transport
+    typ = CAT8_TYPE[i]
+    prefs = {c: None for c in CATS}
+    dis = {c: [] for c in CATS}
+    for c in CATS:
+        table = st["tables"][c]
+        if c == typ or rng.random() < 0.3:
+            if c == "keys" and role == "Server":
+                continue                      # keep the defaults: they match the five test host keys
+            pool = [n for n in table if not (c == "kex" and n.startswith("gss-"))] if c == "kex" else table
+            prefs[c] = rng.sample(pool, rng.randrange(2, min(len(pool), 6) + 1))
+        elif rng.random() < 0.3:
+            base = list(getattr(Transport, "_preferred_" + c))
+            dis[c] = rng.sample(base, rng.randrange(0, max(1, len(base) - 2)))
+    names = sorted(st["keys"])
+    skeys = []
+    if role == "Server":
+        skeys = list(names) if typ == "keys" else rng.sample(names, rng.randrange(1, len(names) + 1))
+    return {"prefs": prefs, "disabled": dis, "skeys": skeys, "moduli": True, "strict": rng.random() < 0.75}
+
+
+def rankdiff_peer(rng, st, i):
+    """peer_fn for run_single: benign lists, and in category i >= 2 of our own names in an order whose
+    first entry differs from ours, with extras / unknown names / markers around them."""
+    def fn(own):
+        lists = gen_peer(rng, st, own, benign=True)
+        common = [n for n in own[i] if not is_marker(n)]
+        common = [n for k, n in enumerate(common) if n not in common[:k]]
+        if len(common) < 2:
+            return lists
+        sub = rng.sample(common, rng.randrange(2, len(common) + 1))
+        first_own = min(sub, key=common.index)
+        if sub[0] == first_own:
+            j = rng.randrange(1, len(sub))
+            sub[0], sub[j] = sub[j], sub[0]
+        table = st["tables"][CAT8_TYPE[i]]
+        for _ in range(rng.randrange(0, 3)):
+            x = rng.choice(table + UNKNOWN[:2])
+            if x not in common:
+                sub.insert(rng.randrange(len(sub) + 1), x)
+        if i == 0:
+            for _ in range(rng.randrange(0, 3)):
+                sub.insert(rng.randrange(len(sub) + 1), rng.choice(MARKERS))
+        lists[i] = [n for n in sub if "," not in n]
+        return lists
+    return fn
 
 
 # ---------------------------------------------------------------------------------------------
@@ -392,7 +455,21 @@ def check_property(ctx, case, role, mcfg, own, peer, outcome):
                  observed=got[1])
 
 
-def run_single(ctx, st, role, cfg, peer_lists, kind, cases_adv, cases_neg, check_adv=True):
+def tally_rankdiff(ctx, role, own, peer, outcome):
+    """Evidence: how many cases rank >= 2 common algorithms differently, per role and category, and how
+    many of those reach the category (negotiation succeeded, or failed no earlier)."""
+    client, server = (own, peer) if role == "Client" else (peer, own)
+    hit = []
+    for i in range(8):
+        if ranked_differently(client[i], server[i], kex=(i == 0)):
+            k = "ranked-differently/%s/%s%s" % (role.lower(), CAT8[i], "" if outcome[0] == "ok" else "/not-reached")
+            ctx.dist[k] = ctx.dist.get(k, 0) + 1
+            if outcome[0] == "ok":
+                hit.append(i)
+    return hit
+
+
+def run_single(ctx, st, role, cfg, peer_lists, kind, cases_adv, cases_neg, check_adv=True, peer_fn=None):
     """One direct-drive case.  peer_lists=None -> generated after seeing our own advertised lists."""
     t, socks = make_transport(st, role, cfg)
     try:
@@ -400,7 +477,7 @@ def run_single(ctx, st, role, cfg, peer_lists, kind, cases_adv, cases_neg, check
         t._send_kex_init()
         own = read_own(t.local_kex_init)
         if peer_lists is None:
-            peer_lists = gen_peer(ctx.rng, st, own)
+            peer_lists = peer_fn(own) if peer_fn is not None else gen_peer(ctx.rng, st, own)
         payload = build_kexinit(peer_lists)
         peer = read_lists(b"\x14" + payload)
         outcome = drive_parse(st, t, payload)
@@ -412,6 +489,7 @@ def run_single(ctx, st, role, cfg, peer_lists, kind, cases_adv, cases_neg, check
     ctx.count((role, repr(sorted(cfg.items(), key=str)), peer_lists), nontrivial=nontrivial,
               kind="%s-%s-%s" % (kind, role.lower(), "ok" if outcome[0] == "ok" else outcome[1]))
     check_property(ctx, case, role, mcfg, own, peer, outcome)
+    tally_rankdiff(ctx, role, own, peer, outcome)
     if check_adv:
         cases_adv.append(("(CaseAdv %s %s %s)" % (role, coq_cfg(mcfg), coq_ki(own)), [1], case, own))
     cases_neg.append(("(CaseNeg %s %s %s %s)" % (role, coq_cfg(mcfg), coq_ki(peer), coq_outcome(outcome)), [1], case,
@@ -436,6 +514,8 @@ def run_pair(ctx, st, cfg_c, cfg_s, cases_adv, cases_neg, kind="pair"):
     case = {"pair": True, "client_cfg": cfg_c, "server_cfg": cfg_s}
     ctx.count(("pair", repr(cfg_c), repr(cfg_s)), nontrivial=True,
               kind="%s-%s" % (kind, "ok" if out_c[0] == "ok" else out_c[1]))
+    tally_rankdiff(ctx, "Client", own_c, own_s, out_c)
+    tally_rankdiff(ctx, "Server", own_s, own_c, out_s)
     check_property(ctx, dict(case, side="client"), "Client", mc, own_c, own_s, out_c)
     check_property(ctx, dict(case, side="server"), "Server", ms, own_s, own_c, out_s)
     agree = (out_c[0] == out_s[0] == "exc" and out_c[1] == out_s[1]) or (
@@ -646,7 +726,9 @@ def run(ctx):
                 "(often the first preferences; also everything, unknown and certificate names), random host-key "
                 "sets, modulus pack present or not, strict_kex on/off; peer KEXINIT = random subsets/orderings of "
                 "table names, names of our own list reordered, unknown names, duplicates, empty lists, 0-3 markers "
-                "at random positions (also in non-kex lists), one sabotaged category in 30%; plus paired real "
+                "at random positions (also in non-kex lists), one sabotaged category in 30%; a dedicated stream per "
+                "role and category with >= 2 common algorithms ranked differently by the two sides and the other "
+                "categories compatible (counts: ranked-differently/<role>/<cat>); plus paired real "
                 "transports and real handshakes; a case is non-trivial when distinct and either negotiation "
                 "succeeds or the peer lists something")
     ctx.trusted += ["model coq/Model/C05.v is hand-written; tied to paramiko/transport.py by the generated tuples/"
@@ -664,6 +746,22 @@ def run(ctx):
         role = "Client" if rng.random() < 0.5 else "Server"
         run_single(ctx, st, role, gen_cfg(rng, role, st), None, "random", cases_adv, cases_neg,
                    check_adv=rng.random() < 0.3)
+    # every category, both roles: >= 2 common algorithms ranked differently by the two sides, with the
+    # other categories compatible so that the category under test is reached (kinds rankdiff-<role>-<cat>-*)
+    for role in ("Client", "Server"):
+        for i in range(8):
+            reached = 0
+            for _ in range(40 * scale):
+                if reached >= 8 * scale:
+                    break
+                before = ctx.dist.get("ranked-differently/%s/%s" % (role.lower(), CAT8[i]), 0)
+                run_single(ctx, st, role, gen_rankdiff_cfg(rng, role, st, i), None,
+                           "rankdiff-%s" % CAT8[i], cases_adv, cases_neg, check_adv=False,
+                           peer_fn=rankdiff_peer(rng, st, i))
+                reached += ctx.dist.get("ranked-differently/%s/%s" % (role.lower(), CAT8[i]), 0) - before
+            if reached < 4:
+                ctx.disagree("generator failed to produce >= 4 reached ranked-differently cases",
+                             case={"role": role, "category": CAT8[i], "reached": reached})
     for _ in range(100 * scale):
         run_pair(ctx, st, gen_cfg(rng, "Client", st), gen_cfg(rng, "Server", st), cases_adv, cases_neg)
     flush_model(ctx, cases_adv, cases_neg)
